@@ -5,6 +5,7 @@ import (
 	"compress/gzip"
 	"fmt"
 	"strings"
+	"time"
 
 	"verifsim/kernel"
 	"verifsim/simnet"
@@ -198,7 +199,14 @@ func runC01(k *kernel.K) {
 		}
 	}
 	n.TCPLikeConns = w.Chance(1, 2)
-	_, l := newProxyA(k, n)
+	proxy, l := newProxyA(k, n)
+	// Idle timeout of the proxy (default 5 minutes); idle gaps between requests stay below it.
+	timeout := 5 * time.Minute
+	if w.Chance(1, 3) {
+		timeout = []time.Duration{10 * time.Second, 90 * time.Second}[w.Draw(2)]
+		proxy.SetTimeout(timeout)
+	}
+	gaps := w.Chance(1, 2)
 
 	exs := map[int]*c01Ex{}
 	hosts := []string{"origin-a.test", "origin-b.test:8081"}
@@ -258,7 +266,10 @@ func runC01(k *kernel.K) {
 			r.Pipelined = j > 0 && w.Chance(1, 3)
 			ex := &c01Ex{id: id, req: r, resp: rs, conn: ci, gzipOK: w.Chance(1, 4)}
 			exs[id] = ex
-			c.Add(r)
+			it := c.Add(r)
+			if r.Pipelined && w.Chance(1, 3) && len(it.Raw) > 2 {
+				it.SplitAt = 1 + w.Draw(len(it.Raw)-1)
+			}
 			k.Note("c%d #%d %s %s %s body=%s/%d pipelined=%v close=%v -> %d %s/%d proto=%s close=%v gzipIfAsked=%v", ci, id, r.Method, r.Target(), r.Proto, r.Framing, len(r.Body), r.Pipelined, r.Close, rs.Status, rs.Framing, len(rs.Body), rs.Proto, rs.Close, ex.gzipOK)
 			id++
 		}
@@ -275,6 +286,46 @@ func runC01(k *kernel.K) {
 		return sb.String()
 	}
 
+	// Idle gaps: while no exchange is in flight anywhere, let simulated time pass, but never so
+	// long that any connection has been idle for the proxy's timeout (it may close it then).
+	if gaps {
+		k.AddSource(func(add func(kernel.Action)) {
+			pending := false
+			for _, c := range clients {
+				if !c.Idle() {
+					return
+				}
+				if c.Alive() && c.NextIndex() < len(c.Script) {
+					pending = true
+				}
+			}
+			if !pending {
+				return
+			}
+			slack := timeout
+			for _, c := range clients {
+				if !c.Alive() {
+					continue
+				}
+				last := c.LastResp
+				if c.LastSend > last {
+					last = c.LastSend
+				}
+				if rem := timeout - (k.Now() - last); rem < slack {
+					slack = rem
+				}
+			}
+			slack -= time.Second
+			if slack < time.Second {
+				return
+			}
+			add(kernel.Action{Key: "idle gap", W: 2, Class: kernel.Clock, Do: func() {
+				d := time.Duration(1+k.S.Draw(int(slack/time.Second))) * time.Second
+				k.Probe("idle_gap")
+				k.Advance(d)
+			}})
+		})
+	}
 	k.RunUntil(func() bool {
 		for _, c := range clients {
 			if !c.Done() {
